@@ -35,6 +35,10 @@ from sa import refswap
 C.KEEP_MESSAGES = True
 # helpers that were inlined are normally dropped from the model; other modules may still import them, so keep them here
 refswap._drop_dead_helpers = lambda *a, **k: []
+# helpers that only raise are replaced by `raise E(<the call's arguments>)`: class and position are kept, the message TEXT is not
+# (no rule reads it), so the emitted source would print other messages - switched off here
+from sa import inline as _inline
+_inline.Inliner.raising_helpers = lambda self: None
 prog = Program(%(tmp)r)
 for m in prog.modules.values():
     ast.fix_missing_locations(m.tree)
